@@ -1370,7 +1370,7 @@ COMPONENTS = {
              'reference = pristine fork of the worker and a companion interpreter under another PYTHONHASHSEED'],
 }
 TIERS = {
-    'quick': {'runs': 3600, 'wall_cap': 400},
+    'quick': {'runs': 3200, 'wall_cap': 400},
     'thorough': {'runs': 60000, 'wall_cap': 3600},
 }
 EXPECTED_PROBES = ['second-use-of-stateful-shared-parser', 'RecursionError-raised',
